@@ -2,6 +2,8 @@ package main
 
 import (
 	"fmt"
+	"go/constant"
+	"go/types"
 	"go/token"
 	"strings"
 
@@ -17,6 +19,7 @@ var storeReturnsHolding = map[string]string{
 
 func c14(c *Ctx) {
 	c14CutOffset(c, "C14.5/cut-offset-is-the-first-value-of-the-tx")
+	c14CatalogCopyComplete(c, "C14.6/catalog-copy-covers-every-persisted-kind")
 	// ---- C14.1 lock pairing in the store (ExportTx in particular) -------------------------------------
 	c.rulePairing("C14.1/lock-pairing", []string{"embedded/store"}, storeReturnsHolding)
 	// every fetchVLog is paired with a releaseVLog on all paths
@@ -370,5 +373,93 @@ func c14CutOffset(c *Ctx, r string) {
 	}
 	if n < 1 {
 		c.undecided(r, "floor", "TruncateUptoTx no longer calls readTxOffsetAt")
+	}
+}
+
+// c14CatalogCopyComplete: before the value logs are cut, the SQL catalog is committed again (CopyCatalogToTx) so that
+// its entries live in transactions that survive the cut. The catalog is a family of key prefixes (the catalog*Prefix
+// constants); every prefix that some statement persists must also be one the copy re-commits, otherwise objects of
+// that kind (sequences, views) are gone after truncation and a restart.
+func c14CatalogCopyComplete(c *Ctx, r string) {
+	p, ok := c.byPath[modPrefix+"embedded/sql"]
+	if !ok {
+		c.undecided(r, "embedded/sql", "package not loaded")
+		return
+	}
+	consts := map[string]string{} // name -> value
+	for _, name := range p.Types.Scope().Names() {
+		k, ok := p.Types.Scope().Lookup(name).(*types.Const)
+		if !ok || !strings.HasPrefix(name, "catalog") || !strings.HasSuffix(name, "Prefix") || name == "catalogPrefix" {
+			continue
+		}
+		consts[name] = constant.StringVal(k.Val())
+	}
+	if len(consts) < 4 {
+		c.undecided(r, "constants", fmt.Sprintf("%d catalog*Prefix constants found", len(consts)))
+		return
+	}
+	refsConst := func(f *ssa.Function, val string) bool {
+		found := false
+		allInstrs(f, true, func(in ssa.Instruction) {
+			for _, op := range in.Operands(nil) {
+				if k, ok := (*op).(*ssa.Const); ok && k.Value != nil && k.Value.Kind() == constant.String && constant.StringVal(k.Value) == val {
+					found = true
+				}
+			}
+		})
+		return found
+	}
+	writes := func(f *ssa.Function) bool {
+		return len(sites(f, callTo(sqlTxT+"set", otxT+"Set"))) > 0
+	}
+	// functions reachable from the copy entry point
+	root := c.mustFn(r, "embedded/sql.(*Engine).CopyCatalogToTx")
+	if root == nil {
+		return
+	}
+	reach := map[*ssa.Function]bool{}
+	var walk func(f *ssa.Function, d int)
+	walk = func(f *ssa.Function, d int) {
+		if f == nil || reach[f] || d > 6 || len(f.Blocks) == 0 {
+			return
+		}
+		reach[f] = true
+		for _, an := range f.AnonFuncs {
+			walk(an, d+1)
+		}
+		allInstrs(f, false, func(in ssa.Instruction) {
+			if cc := callOf(in); cc != nil {
+				if sc := cc.StaticCallee(); sc != nil && fnInPkgs(sc, []string{"embedded/sql"}) {
+					walk(sc, d+1)
+				}
+			}
+		})
+	}
+	walk(root, 0)
+	n := 0
+	for _, name := range sortedKeys(consts) {
+		val := consts[name]
+		persisted := ""
+		for _, f := range c.allFns {
+			if fnInPkgs(f, []string{"embedded/sql"}) && len(f.Blocks) > 0 && !reach[topFn(f)] && !reach[f] && refsConst(f, val) && writes(f) {
+				persisted = fnName(f)
+				break
+			}
+		}
+		if persisted == "" {
+			c.okTrivial(r, name, "", "no statement persists keys under "+val)
+			continue
+		}
+		n++
+		copied := false
+		for f := range reach {
+			if refsConst(f, val) {
+				copied = true
+			}
+		}
+		c.check(copied, r, name, c.pos(root.Pos()), "re-committed by the catalog copy", "keys under "+val+" are persisted (by "+persisted+") but nothing reachable from CopyCatalogToTx reads them: after a truncation that removes their values and a restart these catalog objects no longer exist")
+	}
+	if n < 4 {
+		c.undecided(r, "floor", fmt.Sprintf("%d persisted catalog kinds found (tables, columns, indexes, checks, views, sequences expected)", n))
 	}
 }
